@@ -98,25 +98,45 @@ func wrap(v any) any {
 	return v
 }
 
-// typed converts homogeneous containers into typed Go slices and maps.
+// typedKind: which reflected container typed() makes of an array ("" = it stays a []any).
+func typedKind(tv []any) string {
+	if len(tv) == 0 {
+		return ""
+	}
+	allInt, allStr, allMap := true, true, true
+	for _, e := range tv {
+		if _, ok := e.(int64); !ok {
+			allInt = false
+		}
+		if _, ok := e.(string); !ok {
+			allStr = false
+		}
+		if _, ok := e.(map[string]any); !ok {
+			allMap = false
+		}
+	}
+	switch {
+	case allInt:
+		return "int"
+	case allStr:
+		return "str"
+	case allMap:
+		return "map"
+	case len(tv) == 3:
+		return "arr3"
+	}
+	return ""
+}
+
+// typed converts homogeneous arrays into typed Go slices and three element arrays into [3]any.
 func typed(v any) any {
 	switch tv := v.(type) {
 	case []any:
 		if len(tv) == 0 {
 			return tv
 		}
-		allInt, allStr, allMap := true, true, true
-		for _, e := range tv {
-			if _, ok := e.(int64); !ok {
-				allInt = false
-			}
-			if _, ok := e.(string); !ok {
-				allStr = false
-			}
-			if _, ok := e.(map[string]any); !ok {
-				allMap = false
-			}
-		}
+		k := typedKind(tv)
+		allInt, allStr, allMap := k == "int", k == "str", k == "map"
 		switch {
 		case allInt:
 			out := make([]int64, len(tv))
@@ -152,19 +172,9 @@ func typed(v any) any {
 		}
 		return out
 	case map[string]any:
-		allInt := len(tv) > 0
-		for _, e := range tv {
-			if _, ok := e.(int64); !ok {
-				allInt = false
-			}
-		}
-		if allInt {
-			out := make(map[string]int64, len(tv))
-			for k, e := range tv {
-				out[k] = e.(int64)
-			}
-			return out
-		}
+		// the property names typed slices, arrays and structs; a typed map (map[string]int64) is
+		// reached by a child step only (wildcards, filters and descents do not iterate it in
+		// Get), so none is generated
 		out := make(map[string]any, len(tv))
 		for k, e := range tv {
 			out[k] = typed(e)
@@ -331,33 +341,72 @@ func Run(cs Case, c *vrt.Ctx) {
 		}
 		return true
 	}
+	// C11-K4: First, FirstFound and Has look at the element at the start index only when a slice
+	// meets a reflected slice or array. A discrepancy of theirs is attributed to that finding
+	// only when this reading, emulated on the reference, gives exactly what they returned.
+	var startOnly []string
+	startOnlyRead := false
+	startOnlyOpen := false // the reference does not decide every slice of this case
+	if cs.Rep == "typed" && kinds["slice"] {
+		alt := jpx.EvalSliceHook(cs.Path, data, func(arr []any, s []int) ([]int, bool) {
+			if typedKind(arr) == "" {
+				return nil, false
+			}
+			start := 0
+			if len(s) > 0 {
+				start = s[0]
+			}
+			if len(s) > 2 && s[2] == 0 {
+				return nil, true
+			}
+			if start < 0 {
+				start += len(arr)
+			}
+			if start < 0 || len(arr) <= start {
+				return nil, true
+			}
+			return []int{start}, true
+		})
+		startOnly, startOnlyRead = canonList(valuesOf(alt.Locs)), true
+		startOnlyOpen = alt.DontCare != "" || res.DontCare != ""
+	}
+	explained := func(ok bool) []string {
+		if startOnlyRead && (ok || startOnlyOpen) {
+			// where a slice of the case is in a zone the statement leaves open (negative step with
+			// a defaulted bound or a start beyond the end) the emulation is not exact either
+			return append(append([]string(nil), tags...), "explained-by-start-only-slice-reading")
+		}
+		return tags
+	}
 	// Has
 	var has bool
 	if check("Has", func() { has = x.Has(in) }) && has != (len(gs) > 0) {
-		c.Fail("has-differs", "Has", fmt.Sprintf("%s: Has=%v but Get=%v", desc, has, gs), tags...)
+		c.Fail("has-differs", "Has", fmt.Sprintf("%s: Has=%v but Get=%v", desc, has, gs), explained(has == (len(startOnly) > 0))...)
 	}
 	// FirstFound / First
 	var ff, first any
 	var found bool
 	if check("FirstFound", func() { ff, found = x.FirstFound(in) }) {
+		ftags := explained(found == (len(startOnly) > 0) && (!found || contains(startOnly, canon.String(ff, canon.Value))))
 		switch {
 		case found != (len(gs) > 0):
-			c.Fail("first-differs", "FirstFound", fmt.Sprintf("%s: found=%v but Get=%v", desc, found, gs), tags...)
+			c.Fail("first-differs", "FirstFound", fmt.Sprintf("%s: found=%v but Get=%v", desc, found, gs), ftags...)
 		case found && !contains(gs, canon.String(ff, canon.Value)):
-			c.Fail("first-differs", "FirstFound", fmt.Sprintf("%s: %s is not in Get=%v", desc, canon.String(ff, canon.Value), gs), tags...)
+			c.Fail("first-differs", "FirstFound", fmt.Sprintf("%s: %s is not in Get=%v", desc, canon.String(ff, canon.Value), gs), ftags...)
 		case found && ordered && canon.String(ff, canon.Value) != gs[0]:
-			c.Fail("first-not-first", "FirstFound", fmt.Sprintf("%s: %s but Get=%v", desc, canon.String(ff, canon.Value), gs), tags...)
+			c.Fail("first-not-first", "FirstFound", fmt.Sprintf("%s: %s but Get=%v", desc, canon.String(ff, canon.Value), gs), ftags...)
 		}
 	}
 	if check("First", func() { first = x.First(in) }) {
 		fc := canon.String(first, canon.Value)
+		ftags := explained((len(startOnly) == 0 && first == nil) || contains(startOnly, fc))
 		switch {
 		case len(gs) == 0 && first != nil:
-			c.Fail("first-differs", "First", fmt.Sprintf("%s: First=%s but Get is empty", desc, fc), tags...)
+			c.Fail("first-differs", "First", fmt.Sprintf("%s: First=%s but Get is empty", desc, fc), ftags...)
 		case len(gs) > 0 && !contains(gs, fc):
-			c.Fail("first-differs", "First", fmt.Sprintf("%s: First=%s is not in Get=%v", desc, fc, gs), tags...)
+			c.Fail("first-differs", "First", fmt.Sprintf("%s: First=%s is not in Get=%v", desc, fc, gs), ftags...)
 		case len(gs) > 0 && ordered && fc != gs[0]:
-			c.Fail("first-not-first", "First", fmt.Sprintf("%s: First=%s but Get=%v", desc, fc, gs), tags...)
+			c.Fail("first-not-first", "First", fmt.Sprintf("%s: First=%s but Get=%v", desc, fc, gs), ftags...)
 		}
 	}
 	// Locate
@@ -553,19 +602,13 @@ var classifiers = []vrt.Classifier{
 	{ID: "C11-K3", Match: func(d vrt.Disc, c *vrt.Ctx) bool {
 		return has(d, "only-nulls-missing") && (d.Where == "GetNodes" || d.Where == "FirstNode")
 	}},
-	// C11-K4: on data reached by reflection (typed slices, arrays and maps, structs and pointers to
-	// them) the evaluators - including Get itself - disagree with Get on the equivalent simple
-	// data once the path contains a descent, wildcard, slice, union or filter (each evaluator has
-	// its own reflect* helpers). Child/index-only paths on such data are still checked strictly.
+	// C11-K4: First, FirstFound and Has look at the element at the start index only (no clamping,
+	// end and step ignored) when a slice is applied to a slice or array reached by reflection.
+	// jp/get_test.go (firstTestReflectData, "$[1:1][0]" on []gen.Array expects 2) and
+	// jp/has_test.go pin that reading, so it can not be aligned with Get without editing tests.
 	{ID: "C11-K4", Match: func(d vrt.Disc, c *vrt.Ctx) bool {
-		if !has(d, "rep:typed") && !has(d, "rep:struct") {
-			return false
-		}
-		return has(d, "has:descent") || has(d, "has:wild") || has(d, "has:slice") || has(d, "has:union") || has(d, "has:filter")
-	}},
-	// C11-K5: First and FirstFound do not descend into user Keyed/Indexed collections.
-	{ID: "C11-K5", Match: func(d vrt.Disc, c *vrt.Ctx) bool {
-		return has(d, "rep:wrapped") && has(d, "has:descent") && (d.Where == "First" || d.Where == "FirstFound")
+		return has(d, "rep:typed") && has(d, "has:slice") && has(d, "explained-by-start-only-slice-reading") &&
+			(d.Where == "First" || d.Where == "FirstFound" || d.Where == "Has")
 	}},
 	// C11-K2: for a slice with a negative step whose start is at or beyond the length, Locate and
 	// Walk start at the last element while Get selects nothing; jp/locate_test.go pins Locate's
